@@ -34,6 +34,8 @@ def core_ir(r, nmax=3, returns=None):
     for nm in names:
         typ = r.choice(G.SCALARS + ["Optional[int]", "Optional[str]"])
         p = {"typ": typ, "doc": G.prose(r, 1, 4, rich=False)}
+        if typ.startswith("Optional[") and r.random() < 0.4:
+            p["doc"] = r.choice(["Optional ", "(Optional) "]) + p["doc"]  # (the parsers read this prefix as a type hint)
         d = G.gen_default(r, typ, allow_code=False)
         if d[0] == "val":
             p["default"] = d[1]
